@@ -89,8 +89,9 @@ let rec split_on (sep : string) (ws : string list) : string list list =
   go [] [] ws
 let parse_item_words (ws : string list) : item option =
   match ws with
-  | ("B" | "N") :: c :: id :: "[" :: rest ->      (* N: loaded with ReadObject<T>() - the same record, the same model *)
-    let rest = List.filter (fun w -> w <> "]") rest in
+  | ("B" | "N" | "U") :: c :: id :: "[" :: rest ->      (* N: loaded with ReadObject<T>() - the same record, the same model *)
+    let rec upto = function [] -> [] | "]" :: _ -> [] | w :: r -> w :: upto r in   (* "] @ ..." : the harness's business *)
+    let rest = upto rest in
     let groups = List.filter (fun g -> g <> []) (split_on ";" rest) in
     let ls = List.map parse_leaf groups in
     if List.mem None ls then None
@@ -203,7 +204,7 @@ let parse_hdr (ws : string list) : hdr =
 let letters : string list ref = ref []      (* B / N of every item of the case, to print them back as they came *)
 let relabel (i : int) (s : string) : string =
   match List.nth_opt !letters i with
-  | Some "N" when String.length s > 1 && s.[0] = 'B' -> "N" ^ String.sub s 1 (String.length s - 1)
+  | Some (("N" | "U") as l) when String.length s > 1 && s.[0] = 'B' -> l ^ String.sub s 1 (String.length s - 1)
   | _ -> s
 let print_outcome (pfx : string) (n : int) (o : outcome) : unit =
   match o with
